@@ -32,8 +32,9 @@ claimed = {
         "names and labels to gographviz. ShowCloure (debug listing) prints state number, left-hand side, the symbols before/after the dot and `at X goto n` "
         "from the same structures; ShowLookAheadSet / ShowDrSet / ShowReadSet print ONE line per entry of the set map, with the transition and the names of ALL its symbols in order "
         "(ghost print log), so no reduction or lookahead of the tables is missing from the listing.",
-   note=TB + "Trusted: gographviz itself (AddNode makes the node retrievable under its name - an explicit `assumes` clause), graph.NewGraph, ItemToStr's text "
-        "(a deterministic function of rule and dot; the dot placement inside the string is not verified), fmt.Sprintf / strings.* as pure functions. showTrans's text is trusted (deterministic). "
+   note=TB + "Trusted: gographviz itself (AddNode makes the node retrievable under its name - an explicit `assumes` clause), graph.NewGraph, fmt.Sprintf / strings.* as pure functions. "
+        "No longer trusted: the item text (ItemToStr: `lhs-\\>`, a bullet before the symbol at the dot or at the end, ε for an empty rule), the transition text (showTrans) and the display "
+        "name function (utils.RemoveTempName) are proved against recursive specification functions. "
         "ShowFollowSet (prints a []string with %v) is not under contract.",
    design="§5 C18", technique="contract-based deductive verification with a ghost log of external calls"),
  "C02": dict(
